@@ -174,7 +174,7 @@ def tree(rng, job, maxlen=3000):
 
 def damage(rng):
     k = rng.choice(['file_rand', 'file_rand', 'file_burst', 'file_zero', 'file_all', 'hash', 'parity', 'track', 'both', 'both',
-                    'trunc', 'extend', 'extend', 'cut_track', 'cut_track', 'none', 'over1', 'over1'])
+                    'trunc', 'extend', 'extend', 'cut_track', 'cut_track', 'none', 'over1', 'over1', 'parity_swap'])
     d = {'kind': k, 'targets': rng.choice(['one', 'all', 'all']), 'weight': rng.choice([1, 1, 2, 3, 5, 8, 20, 60, 300, 1500])}
     if k in ('hash', 'parity', 'track', 'both'):
         d['nblocks'] = rng.choice([1, 2, 5, 'all'])
@@ -242,6 +242,10 @@ def corpus(rng):
         out.append(dict(b, tree={'a.bin': mid}, fast=False, damage={'kind': 'parity', 'weight': 2, 'nblocks': 3, 'targets': 'all'}))
         out.append(dict(b, tree={'a.bin': mid}, fast=True, damage={'kind': 'parity', 'weight': 2, 'nblocks': 3, 'targets': 'all'}))
         out.append(dict(b, tree={'a.bin': mid}, single='a.bin', damage={'kind': 'file_rand', 'weight': 4, 'targets': 'all'}))
+        # intact block and hash, parity of a neighbouring message: the default mode must not touch the block, whatever the hash kind
+        for hk in HASHES:
+            out.append(dict(b, hash=hk, fast=True, tree={'a.bin': mid, 'b': small}, damage={'kind': 'parity_swap', 'targets': 'all'}))
+        out.append(dict(b, hash='minimd5', fast=False, tree={'a.bin': mid}, damage={'kind': 'parity_swap', 'targets': 'all', 'blocks': 'some'}))
     return out
 
 
